@@ -23,8 +23,9 @@ def gen_abstract(r):
                        ("{pycalver}", "v202401.0033-rc"), ("{semver}", "0.9.10"), ("vMAJOR.MINOR[.PATCH]", "v1.2")])
     commit = r.random() < 0.6
     c = dict(current_version=cv, version_pattern=vp,
-             commit_message=r.choice([None, "bump {old_version} -> {new_version}", "release: {new_version}", "it's {new_version}"]),
-             tag_message=r.choice([None, "{new_version}", "v {new_version}"]),
+             commit_message=r.choice([None, "bump {old_version} -> {new_version}", "release: {new_version}", "it's {new_version}",
+                                      "release {new_version} ; was {old_version}", "bump to {new_version} # automated"]),
+             tag_message=r.choice([None, "{new_version}", "v {new_version}", "{new_version} ; stable", "tag #{new_version}"]),
              tag_scope=r.choice([None, "default", "global", "branch"]),
              pre_commit_hook=r.choice([None, None, "hook.sh"]), post_commit_hook=r.choice([None, None, "hook.sh"]),
              commit=commit, tag=(r.random() < 0.5) if commit else r.choice([False, None]), push=(r.random() < 0.5) if commit else r.choice([False, None]))
@@ -33,11 +34,27 @@ def gen_abstract(r):
     files = {}
     for i in range(r.choice([0, 1, 2, 3, 6])):
         name = r.choice(["a%d.txt", "src/m%d.py", "docs/r%d.md"]) % i
-        files[name] = [r.choice(['__version__ = "{version}"', "{version}", "{pep440_version}", 'v = "{pep440_version}"', "Copyright YYYY" if "{" not in vp else "{version} "])
+        files[name] = [r.choice(['__version__ = "{version}"', "{version}", "{pep440_version}", 'v = "{pep440_version}"', "Copyright YYYY" if "{" not in vp else "{version} ",
+                                 'version = "{version}"  # managed by bumpver', "{version} ; stable"])
                        for _ in range(r.choice([1, 1, 2, 4]))]
         files[name] = list(dict.fromkeys(p.strip() for p in files[name]))
     c["files"] = files
+    # sections of other tools next to bumpver's (they must not change what the configuration means)
+    c["noise"] = r.choice([None, None, "before", "after"])
     return c
+
+
+NOISE_INI = "[flake8]\nmax-line-length = 100\n\n[tool:pytest]\naddopts = -q\n"
+NOISE_TOML = '[tool.black]\nline-length = 100\n\n[build-system]\nrequires = ["setuptools"]\n'
+
+
+def with_noise(text, kind, where):
+    noise = NOISE_INI if kind == "ini" else NOISE_TOML
+    if where == "before":
+        return noise + "\n" + text
+    if where == "after":
+        return text + "\n" + noise
+    return text
 
 
 def render_ini(c, r, section="bumpver", quote="all"):
@@ -123,7 +140,7 @@ def run(rep, tier, seed, model_ok=True, effort=1):
     import toml
     r = common.rng(seed, "c18")
     n = (40 if tier == "quick" else 800) * effort
-    rep.rule = ("abstract configurations (v2 and legacy patterns, optional keys present/missing, all tag scopes, hooks, every boolean spelling, 0..6 files x 1..4 "
+    rep.rule = ("abstract configurations (v2 and legacy patterns, optional keys present/missing, all tag scopes, hooks, every boolean spelling, messages and patterns containing ' #' and ' ;', sections of other tools before/after, 0..6 files x 1..4 "
                 "patterns) written as 8 siblings: setup.cfg [bumpver] with quoted / unquoted / mixed strings, setup.cfg [pycalver], pyproject.toml, bumpver.toml, "
                 ".bumpver.toml, pycalver.toml; the parsed Config of all siblings must be equal (own current_version line aside, which must be found by its "
                 "own pattern), `update --dry` must announce the same version; raw library values fed to the Coq model of _parse_config; non-trivial = distinct "
@@ -135,7 +152,7 @@ def run(rep, tier, seed, model_ok=True, effort=1):
         for fname, kind, section, quote in SIBLINGS:
             d = tempfile.mkdtemp(prefix="bvcfg_", dir=project.SCRATCH)
             try:
-                text = render_ini(c, r, section, quote) if kind == "ini" else render_toml(c, section)
+                text = with_noise(render_ini(c, r, section, quote) if kind == "ini" else render_toml(c, section), kind, c.get("noise"))
                 open(os.path.join(d, fname), "w", encoding="utf-8").write(text)
                 open(os.path.join(d, "hook.sh"), "w").write("#!/bin/sh\n")
                 renderer = project.TempProject(c["version_pattern"], c["current_version"])
